@@ -172,3 +172,62 @@ Theorem C02_ext_version_brackets_refuted :
   ext_oer wit_flat wit_flat_val <> ext_oer wit_grouped wit_grouped_val.
 Proof. exact ext_version_brackets_refuted. Qed.
 Print Assumptions C02_ext_version_brackets_refuted.
+
+(* ---------------- SET and DEFAULT components (Rt/SetDef.v, notes/design/SetDef.md) ---------------- *)
+From Coq Require Import Sorted.
+From A1 Require Import Rt.SetDef Rt.SetDefProofs.
+
+(* X.690 11.5, X.691 19.5 (canonical), X.696 16: a value equal to the DEFAULT is not encoded — member absent or
+   member stored, DER, PER and OER *)
+Theorem C02_setdef_default_not_encoded : forall d t v std,
+  is_default_value v d = true ->
+  cder false (CDef d t) (VSome v) = Some [] /\ cder false (CDef d t) VNone = Some [] /\
+  cuper false std (CDef d t) (VSome v) = Some [] /\ cuper false std (CDef d t) VNone = Some [] /\
+  coer false (CDef d t) (VSome v) = Some [] /\ coer false (CDef d t) VNone = Some [].
+Proof. exact default_not_encoded. Qed.
+Print Assumptions C02_setdef_default_not_encoded.
+
+Theorem C02_setdef_non_default_encoded : forall d t v std,
+  is_default_value v d = false ->
+  cder false (CDef d t) (VSome v) = cder false t v /\
+  cuper false std (CDef d t) (VSome v) = cuper false std t v /\
+  coer false (CDef d t) (VSome v) = coer false t v.
+Proof. exact non_default_encoded. Qed.
+Print Assumptions C02_setdef_non_default_encoded.
+
+(* the preamble bits the C writes (asked member by member through default_value_cmp) are the standard's *)
+Theorem C02_setdef_preamble_is_spec : forall ms vs, cpresence false ms vs = spec_preamble ms vs.
+Proof. exact cpresence_is_spec. Qed.
+Print Assumptions C02_setdef_preamble_is_spec.
+
+(* the generated comparison is the standard's equality but for a TRUE stored as 0xff against DEFAULT TRUE ... *)
+Theorem C02_setdef_default_cmp_partial : forall raw v d,
+  (raw = false \/ v <> VBool true \/ d <> VBool true) -> dflt_eqb raw v d = is_default_value v d.
+Proof. exact dflt_cmp_partial. Qed.
+Print Assumptions C02_setdef_default_cmp_partial.
+
+(* ... where DER carries the default value (known findings C01-boolean-default-true, C06-default-boolean-true-octet) *)
+Theorem C02_setdef_der_default_true_refuted :
+  exists t v, cwf_d t = true /\ cwt_d t v = true /\ cder true t v <> spec_der t v /\
+              cder true t v = Some [48; 3; 1; 1; 255] /\ spec_der t v = Some [48; 0].
+Proof. exact der_default_true_refuted. Qed.
+Print Assumptions C02_setdef_der_default_true_refuted.
+
+(* X.690 10.3: the contents of a SET's DER are the members' encodings, every member once ... *)
+Theorem C02_setdef_set_content : forall raw tg ms vs bs,
+  forallb has_tag ms = true -> cder raw (CSet tg ms) (VSeq vs) = Some bs ->
+  exists es idx, enc_cms (cder raw) ms vs = Some es /\
+                 bs = tlv tg true (concat (map (fun i => nth i es []) idx)) /\
+                 NoDup idx /\ (forall i, In i idx <-> (i < length ms)%nat).
+Proof. exact cder_set_content. Qed.
+Print Assumptions C02_setdef_set_content.
+
+(* ... and both tables the order is taken from (the compiler's tag2el, the per-value table of SET_encode_der) are
+   in ascending order of (class, number) *)
+Theorem C02_setdef_tag2el_sorted : forall ms, StronglySorted key_le (tag2el ms).
+Proof. exact tag2el_sorted. Qed.
+Print Assumptions C02_setdef_tag2el_sorted.
+
+Theorem C02_setdef_dynamic_table_sorted : forall (l : list (Z * list Z)), StronglySorted key_le (sort_keyed l).
+Proof. exact sort_keyed_sorted. Qed.
+Print Assumptions C02_setdef_dynamic_table_sorted.
